@@ -611,10 +611,23 @@ def run_flags(ctx):
                                       "unpack": bool(dim and deia)})
                         plan_.append((len(steps) - 1, gz, dim, deia, present, url))
                         steps.append({"op": "listing"})
+        names = [n for _t, n in _ds.documented_names() if not _ds.is_bundled(n)]
+        dname = names[int(np.random.default_rng([ctx.seed, 19, 7]).integers(0, len(names)))]
+        steps += [{"op": "clear_home"}, {"op": "net", "default": "timeout"}, {"op": "by_name", "name": dname, "substitute": True}]
         rc, out, err = _ds.run_child({"home": home, "steps": steps}, scratch)
         if out is None:
             raise RuntimeError("flags child failed %s" % err)
         res = out["results"]
+        r = res[-1]
+        ctx.judged()
+        ctx.monitor("c19:flags")
+        if r.get("outcome") != "exc" or r.get("exc_type") != "TimeoutError" or len(r["requests"]) != 4 or \
+                [round(s_, 9) for s_ in r["sleeps"]] != [1.0, 1.0, 1.0]:
+            ctx.violation("documented_retry_defaults", {"kind": "flags", "name": dname, "seed": ctx.seed},
+                          {"outcome": r.get("outcome"), "exception": r.get("exc_type"), "requests": len(r["requests"]),
+                           "sleeps": r["sleeps"], "documented": "n_retries=3, delay=1.0"})
+        else:
+            ctx.nontriv("flags", "defaults", dname)
         for si, gz, dim, deia, present, url in plan_:
             r = res[si]
             cid = {"kind": "flags", "gz": gz, "download_if_missing": dim, "download_even_if_available": deia,
